@@ -573,3 +573,12 @@ def run(rep, program: Program, tier: str) -> None:
     rep.isolate(rule_r5, rep, program, et)
     rep.isolate(rule_r6, rep, program, et)
     rep.isolate(rule_r7, rep, program)
+    # a failed reversibility check can only be contained and recorded if the check is made: every implicit /
+    # retraction sub-step is covered by a complete check (shared with C02-R4)
+    from . import c02
+
+    def _r8():
+        runs = list(c02.integrator_runs(program, tier))
+        return c02.rule_r4(rep, program, runs, prop=PROP, rule="R8")
+
+    rep.isolate(_r8)
